@@ -37,6 +37,7 @@ struct vhost {
      * NOT been reaped: the connection stays in flight. */
     long life;
     int life_set, ignoreterm;
+    long termgrace;             /* a SIGTERM / SIGINT that is not ignored ends the command this many seconds later */
     long death;                 /* absolute virtual time at which the command is gone */
     struct script s[2];         /* 0 stdout, 1 stderr */
     int nbegin, nend;           /* connectBegin / connectEnd seen */
